@@ -7,7 +7,8 @@
   operator, and each numeric, string and time literal form is read as a single token."
 
   Model: `Yae.Model.Lexer` (`lex ops input`, input = the runes of the source).
-  Proofs: `Yae.Proofs.Lex` (loop invariant `Lexed`), `Yae.Proofs.LexRules` (lexicon).
+  Proofs: `Yae.Proofs.Lex` (loop invariant `Lexed`), `Yae.Proofs.LexRules` (lexicon),
+  `Yae.Proofs.LexRegex*` (recognisers = regular expressions), `Yae.Proofs.LexLiteral`.
   This file only states the property-level theorems.
 
   * "either fails with a syntax error or yields tokens": `lex` is a total function into
@@ -24,12 +25,47 @@
     won, or the winner is a registered operator at least as long as every registered symbolic
     operator that matches at that place.  `sortOps_perm` / `sortOps_sorted` / `sortOps_stable`
     specify `oper.Sort`.
-  * literal forms: a literal token is whatever the ten hand-written recognisers
-    (`Pat.run`, tied to Go's `regexp` by differential testing only) match; the model-level
-    content is `lex_token_at` (the token is the WHOLE match of the first matching rule) plus
-    kernel-checked instances (`literal_examples`).
+  * literal forms: the ten literal rules of the lexicon are Go regular expressions.  They are
+    given as terms `reOf p : Re` (`Yae.Spec.Regex`; `Re.show` prints the pattern texts of
+    `factory.go` character for character) with a formal semantics: the language `Re.Matches`
+    and the reference matcher `Re.matchLen` (backtracking, leftmost-first: ordered alternation,
+    greedy quantifiers; sound and complete for the language, `Re.matchLen_sound/_complete`).
+    `literal_forms`: every literal rule matches EXACTLY what its regular expression matches
+    under the reference semantics, on every input (the hand-written recognisers of the model
+    are proved equal to the reference matcher, `Pat.run_eq_matchLen`; none disagrees; the
+    docstring claims "greedy is leftmost-first" for the two float patterns are theorems now).
+    `keyword_form` / `identOp_form`: the same for `keywordPostfix` and `oper.IsIdentOp`.
+    "read as a single token" in both directions:
+      - `lex_literal`: a token of a literal kind is the leftmost-first match of the first
+        literal pattern (in lexicon order) that matches at all there: a word of that pattern's
+        language, with no prefix of the remaining input in the language of an earlier pattern;
+      - `literal_single_token`: a word `d` of the language of a literal pattern, followed by
+        something that cannot continue it (`LitEnd`: anything after a string / raw string /
+        time literal; no identifier character after a symbol; no identifier character and no
+        `.` after a number), is the next token as a whole, if no earlier rule matches;
+        `quoted_single_token`, `number_single_token` discharge "no earlier rule" (only the
+        user's operators remain as a hypothesis), `symbol_single_token` the earlier literal
+        rules; `lex_quoted_first` / `lex_number_first` say it for `lex` at the start of the
+        input.
+      - Not every word of a NUM language is one token even before a blank: the first float
+        pattern allows one exponent and comes first, so `1.5e3e4` (in the language of the
+        second) is lexed `1.5e3`, `e4` (`two_exponents`).  That is the lexicon's rule order
+        (Go behaves the same), not a defect of the model; it is why `number_single_token`
+        excludes words of the second float pattern that have a fraction (with one exponent
+        they are words of the first; with more they are not one token).
+    What remains trusted: that Go's `regexp` implements leftmost-first matching of these ten
+    expressions as `Re.m` defines it (`regexp/syntax`'s parser/simplifier and the matching
+    engines are not modelled; for loops whose body can match the empty word Go's engines
+    deviate from every simple backtracking rule, see `Yae.Spec.Regex`; the only such loop in
+    the lexer is in the string pattern, whose language has at most one word among the prefixes
+    of any input, `string_unique`, so there it cannot matter; for the other nine
+    `Pat.run_eq_policy` shows that no decision about empty iterations changes the match).  `Re.show` and `Re.matchLen`
+    are executable and meant for the driver's differential test (pattern texts against the Go
+    source, `Re.matchLen` / `Pat.run` against `regexp`); that hook is not written yet, the
+    comparison was run once by hand (see `Yae.Spec.Regex`).
 -/
 import Yae.Proofs.LexRules
+import Yae.Proofs.LexLiteral
 namespace Yae.C09
 open Yae
 
@@ -216,10 +252,204 @@ theorem d25_colon_operator :
     (lex [⟨":=", 7, fixInfixL⟩, ⟨"=", 7, fixInfixL⟩] "a := b".toList).map (·.map (·.kind))
       = .ok ["<sym>", ":", "=", "<sym>"] := by decide +kernel
 
-/-! ## literal forms (instances) -/
+/-! ## literal forms -/
 
-/-- Each numeric, string and time literal form is one token (kernel-checked instances; the
-recognisers themselves are tied to Go's regular expressions by differential testing). -/
+/-- The lexicon is the early rules (punctuation, built-in and registered operators, `true`,
+`false`) followed by the ten literal rules, `litPats` = kind and pattern in this order:
+`<num>` floatA, floatB, bin, hex, oct, int; `<str>` str, raw; `<time>` time; `<sym>` sym. -/
+theorem literal_rules (ops : List Operator) :
+    newLexicon ops = earlyRules ops ++ litPats.map litRule := newLexicon_split ops
+
+/-- **Each literal rule matches exactly what its regular expression matches under the
+reference semantics**: `lexer.regex(kind, pattern)` is `FindString` of `^(?:pattern)` with the
+empty match counting as no match (`Re.find`); that never happens (`= Re.matchLen`); a match is
+a non-empty prefix of the input in the language of the pattern; and the rule fails exactly when
+no prefix of the input is in the language. -/
+theorem literal_forms (p : Pat) (s : List Char) :
+    (Matcher.regex p).run s = (reOf p).find s ∧
+    (reOf p).find s = (reOf p).matchLen s ∧
+    (∀ n, (Matcher.regex p).run s = some n →
+      0 < n ∧ n ≤ s.length ∧ (reOf p).Matches (s.take n)) ∧
+    ((Matcher.regex p).run s = none ↔ ∀ u v, s = u ++ v → ¬ (reOf p).Matches u) := by
+  refine ⟨regex_run p s, Re.find_eq_matchLen (reOf_not_nullable p) s,
+    fun n h => regex_run_some h, regex_run_none, ?_⟩
+  intro h
+  cases hr : (Matcher.regex p).run s with
+  | none => rfl
+  | some n =>
+    obtain ⟨_, _, hm⟩ := regex_run_some hr
+    exact absurd hm (h _ _ (List.take_append_drop n s).symm)
+
+/-- The printed regular expressions are the pattern texts of `factory.go` (more in
+`Yae.Spec.Regex`). -/
+example : (reOf .floatB).show = "(?:0|[1-9][0-9]*)(?:[.][0-9]+)?(?:[eE][-+]?[0-9]+)+" ∧
+    (reOf .str).show = "\"(?:[^\"\\\\]*|\\\\[\"\\\\trnbf\\/]|\\\\u[0-9a-fA-F]{4})*\"" := by decide
+
+/-- The keyword rule: the word is a prefix of the input and `keywordPostfix`
+(`^[a-zA-Z\d\p{L}_]+`) does not match what follows. -/
+theorem keyword_form (kw s : List Char) :
+    (Matcher.keyword kw).run s =
+      if kw.isPrefixOf s = true ∧ reKeywordPostfix.matchPrefix (s.drop kw.length) = false
+      then some kw.length else none := Re.keyword_run kw s
+
+/-- `oper.IsIdentOp` is a whole-string match of `^[a-zA-Z\p{L}_][a-zA-Z0-9\p{L}_]*$`. -/
+theorem identOp_form (s : List Char) : isIdentOp s = reIdent.matchWhole s := Re.isIdentOp_eq s
+
+/-- At most one prefix of any input is a string literal (resp. raw string, time literal): no
+priority and no convention about empty iterations enters for these three patterns. -/
+theorem string_unique : Re.UniquePrefix (reOf .str) ∧ Re.UniquePrefix (reOf .raw) ∧
+    Re.UniquePrefix (reOf .time) :=
+  ⟨Re.str_uniquePrefix, Re.raw_uniquePrefix, Re.time_uniquePrefix⟩
+
+/-- **token ⇒ language.**  A token of a literal kind (which is not also the kind of a registered
+operator) is the leftmost-first match, at the place where it starts, of a literal pattern `p` of
+that kind: `n` = its length; it is a word of the language of `p`; and no prefix of the remaining
+input is in the language of a literal pattern that the lexicon tries before `p`. -/
+theorem lex_literal {ops : List Operator} {s : List Char} {ts : List Token}
+    (h : lex ops s = .ok ts) {t : Token} (ht : t ∈ ts)
+    (hk : t.kind ∈ ["<num>", "<str>", "<time>", "<sym>"]) (hops : ∀ o ∈ ops, o.kind ≠ t.kind) :
+    ∃ pre post before after p, s = pre ++ t.lexeme.toList ++ post ∧ t.pos.idx = pre.length ∧
+      litPats = before ++ (t.kind, p) :: after ∧
+      (reOf p).matchLen (t.lexeme.toList ++ post) = some t.lexeme.toList.length ∧
+      (reOf p).Matches t.lexeme.toList ∧
+      ∀ kq ∈ before, ∀ u v, t.lexeme.toList ++ post = u ++ v → ¬ (reOf kq.2).Matches u := by
+  obtain ⟨pre, post, n, h1, _, _, h4, h5, h6⟩ := lex_token_at h ht
+  obtain ⟨before, after, p, hl, _, hm, _, hle, hmat, hb⟩ := firstMatch_literal_inv h5 hk hops
+  have hn : t.lexeme.toList.length = n := by
+    have := congrArg List.length h6
+    rw [List.length_take] at this; omega
+  exact ⟨pre, post, before, after, p, h1, by rw [h4], hl, by rw [hn]; exact hm,
+    by rw [h6]; exact hmat, hb⟩
+
+/-- **language ⇒ token.**  Let `d` be a word of the language of the literal pattern `p` (of
+kind `k`) and `post` something that cannot continue it.  If no early rule matches `d ++ post`
+and no prefix of `d ++ post` is in the language of a literal pattern tried before `p`, then
+the first matching rule at `d ++ post` is `p`'s and it matches exactly `d`; so (`lex_token_at`)
+when the lexer stands there the next token is `d`, of kind `k`. -/
+theorem literal_single_token {ops : List Operator} {k : String} {p : Pat}
+    {before after : List (String × Pat)} (hsplit : litPats = before ++ (k, p) :: after)
+    {d post : List Char} (hd : (reOf p).Matches d) (hpost : LitEnd p post)
+    (hearly : firstMatch (earlyRules ops) (d ++ post) = none)
+    (hbefore : ∀ kq ∈ before, ∀ u v, d ++ post = u ++ v → ¬ (reOf kq.2).Matches u) :
+    firstMatch (newLexicon ops) (d ++ post) = some (k, d.length) :=
+  firstMatch_literal hsplit hd hpost hearly hbefore
+
+/-- A string, raw-string or time literal followed by ANYTHING is one token, provided no
+registered operator's kind is a prefix of the input there. -/
+theorem quoted_single_token {ops : List Operator} {k : String} {p : Pat}
+    (hkp : (k, p) ∈ [("<str>", Pat.str), ("<str>", Pat.raw), ("<time>", Pat.time)])
+    {d : List Char} (hd : (reOf p).Matches d) (post : List Char)
+    (hops : ∀ o ∈ ops, o.kind.toList.isPrefixOf (d ++ post) = false) :
+    firstMatch (newLexicon ops) (d ++ post) = some (k, d.length) :=
+  firstMatch_quoted hkp hd post hops
+
+/-- A numeric literal (a word of the language of one of the six numeric patterns), followed by
+the end of the input or by a character that is neither an identifier character nor `.`, is one
+`<num>` token, provided no registered operator's kind is a prefix of the input there; for the
+second float pattern this is claimed for words without a fraction only (with a fraction and
+one exponent the word is in the language of the first float pattern; with a fraction and more
+exponents it is NOT one token: `two_exponents`). -/
+theorem number_single_token {ops : List Operator} {p : Pat}
+    (hp : p ∈ [Pat.floatA, .floatB, .bin, .hex, .oct, .int])
+    {d : List Char} (hd : (reOf p).Matches d) {post : List Char} (hpost : Re.NumEnd post)
+    (hB : p = .floatB → '.' ∉ d)
+    (hops : ∀ o ∈ ops, o.kind.toList.isPrefixOf (d ++ post) = false) :
+    firstMatch (newLexicon ops) (d ++ post) = some ("<num>", d.length) :=
+  firstMatch_number hp hd hpost hB hops
+
+/-- A symbol followed by the end of the input or by a character that is not an identifier
+character is one `<sym>` token, provided no early rule matches there (`true`, `false` and
+identifier-like operators are words of the symbol pattern too, and their rules come first:
+`lex_words`). -/
+theorem symbol_single_token {ops : List Operator} {d : List Char} (hd : (reOf .sym).Matches d)
+    {post : List Char} (hpost : Re.NoHead isIdentCont post)
+    (hearly : firstMatch (earlyRules ops) (d ++ post) = none) :
+    firstMatch (newLexicon ops) (d ++ post) = some ("<sym>", d.length) :=
+  firstMatch_symbol hd hpost hearly
+
+/-- The same for `lex` at the start of the input: the first token is the literal. -/
+theorem lex_quoted_first {ops : List Operator} {k : String} {p : Pat}
+    (hkp : (k, p) ∈ [("<str>", Pat.str), ("<str>", Pat.raw), ("<time>", Pat.time)])
+    {d : List Char} (hd : (reOf p).Matches d) (post : List Char)
+    (hops : ∀ o ∈ ops, o.kind.toList.isPrefixOf (d ++ post) = false)
+    {ts : List Token} (h : lex ops (d ++ post) = .ok ts) :
+    ∃ t ts', ts = t :: ts' ∧ t.kind = k ∧ t.lexeme.toList = d ∧
+      t.pos = ⟨0, d.length, 0, 0⟩ := by
+  have hfm := firstMatch_quoted hkp hd post hops
+  obtain ⟨c, r, rfl, hc⟩ := Pat.first_of_matches hd
+  have hsp : isSpace c = false := by
+    simp only [List.mem_cons, List.not_mem_nil, or_false, Prod.mk.injEq] at hkp
+    rcases hkp with ⟨_, rfl⟩ | ⟨_, rfl⟩ | ⟨_, rfl⟩ <;>
+      (simp only [Pat.first, beq_iff_eq] at hc; subst hc; decide)
+  obtain ⟨t, ts', rfl, h1, h2, h3⟩ := lex_first_token (r := r ++ post) hsp hfm h
+  have h2' : t.lexeme.toList = c :: r := by
+    rw [h2, ← List.cons_append, List.take_left]
+  exact ⟨t, ts', rfl, h1, h2', by rw [h3, h2']⟩
+
+theorem lex_number_first {ops : List Operator} {p : Pat}
+    (hp : p ∈ [Pat.floatA, .floatB, .bin, .hex, .oct, .int])
+    {d : List Char} (hd : (reOf p).Matches d) {post : List Char} (hpost : Re.NumEnd post)
+    (hB : p = .floatB → '.' ∉ d)
+    (hops : ∀ o ∈ ops, o.kind.toList.isPrefixOf (d ++ post) = false)
+    {ts : List Token} (h : lex ops (d ++ post) = .ok ts) :
+    ∃ t ts', ts = t :: ts' ∧ t.kind = "<num>" ∧ t.lexeme.toList = d ∧
+      t.pos = ⟨0, d.length, 0, 0⟩ := by
+  have hfm := firstMatch_number hp hd hpost hB hops
+  obtain ⟨c, r, rfl, hc⟩ := Pat.first_of_matches hd
+  have hc' : isDigit c = true := by
+    simp only [List.mem_cons, List.not_mem_nil, or_false] at hp
+    rcases hp with rfl | rfl | rfl | rfl | rfl | rfl <;> exact hc
+  obtain ⟨t, ts', rfl, h1, h2, h3⟩ :=
+    lex_first_token (r := r ++ post) (isSpace_digit_quote (.inl hc')) hfm h
+  have h2' : t.lexeme.toList = c :: r := by
+    rw [h2, ← List.cons_append, List.take_left]
+  exact ⟨t, ts', rfl, h1, h2', by rw [h3, h2']⟩
+
+/-! ### non-vacuity -/
+
+/-- `12.5e+3` is in the language of the first float pattern, `42` of the integer pattern,
+`"a\"b"` of the string pattern (by completeness of the reference matcher: it finds them). -/
+example : (reOf .floatA).Matches "12.5e+3".toList ∧ (reOf .int).Matches "42".toList ∧
+    (reOf .str).Matches "\"a\\\"b\"".toList := by
+  refine ⟨?_, ?_, ?_⟩
+  · have h : (reOf .floatA).matchLen "12.5e+3".toList = some 7 := by decide
+    simpa using (Re.matchLen_take h).2
+  · have h : (reOf .int).matchLen "42".toList = some 2 := by decide
+    simpa using (Re.matchLen_take h).2
+  · have h : (reOf .str).matchLen "\"a\\\"b\"".toList = some 6 := by decide
+    simpa using (Re.matchLen_take h).2
+
+/-- the hypotheses of `number_single_token` / `quoted_single_token` hold for `42 + x` with `+`
+registered, and for a string followed directly by a letter -/
+example : Re.NumEnd " + x".toList ∧
+    (∀ o ∈ [(⟨"+", 7, fixInfixL⟩ : Operator)], o.kind.toList.isPrefixOf "42 + x".toList = false) := by
+  refine ⟨?_, by decide⟩
+  intro c t e
+  have : c = ' ' := by
+    have := congrArg List.head? e
+    simpa using this.symm
+  subst this; decide
+
+/-- the reference matcher on the lexer's patterns (kernel-evaluated): the leftmost-first match
+of the first float pattern in `1.5e3e4` is `1.5e3`, of the second `1.5e3e4`; the integer
+pattern finds `0` in `007`; the hex pattern `0x1F` in `0x1Fg`. -/
+example : (reOf .floatA).matchLen "1.5e3e4".toList = some 5 ∧
+    (reOf .floatB).matchLen "1.5e3e4".toList = some 7 ∧
+    (reOf .int).matchLen "007".toList = some 1 ∧
+    (reOf .hex).matchLen "0x1Fg".toList = some 4 ∧
+    (reOf .floatB).matchLen "1.e5".toList = none := by decide
+
+/-- `1.5e3e4` is a word of the second float pattern's language, yet it is lexed as two tokens
+even before a blank: the first float pattern is tried first and stops after one exponent. -/
+theorem two_exponents :
+    (reOf .floatB).Matches "1.5e3e4".toList ∧
+    (lex [] "1.5e3e4 ".toList).map (·.map (fun t => (t.kind, t.lexeme)))
+      = .ok [("<num>", "1.5e3"), ("<sym>", "e4")] := by
+  refine ⟨?_, by decide +kernel⟩
+  have h : (reOf .floatB).matchLen "1.5e3e4".toList = some 7 := by decide
+  simpa using (Re.matchLen_take h).2
+
+/-- Each numeric, string and time literal form is one token (kernel-checked instances). -/
 theorem literal_examples :
     (lex [] "12.5e+3".toList).map (·.map (fun t => (t.kind, t.lexeme))) = .ok [("<num>", "12.5e+3")] ∧
     (lex [] "1e5".toList).map (·.map (fun t => (t.kind, t.lexeme))) = .ok [("<num>", "1e5")] ∧
@@ -251,3 +481,16 @@ end Yae.C09
 #print axioms Yae.C09.lex_longest
 #print axioms Yae.C09.d25_colon_operator
 #print axioms Yae.C09.literal_examples
+#print axioms Yae.C09.literal_rules
+#print axioms Yae.C09.literal_forms
+#print axioms Yae.C09.keyword_form
+#print axioms Yae.C09.identOp_form
+#print axioms Yae.C09.string_unique
+#print axioms Yae.C09.lex_literal
+#print axioms Yae.C09.literal_single_token
+#print axioms Yae.C09.quoted_single_token
+#print axioms Yae.C09.number_single_token
+#print axioms Yae.C09.symbol_single_token
+#print axioms Yae.C09.lex_quoted_first
+#print axioms Yae.C09.lex_number_first
+#print axioms Yae.C09.two_exponents
